@@ -22,8 +22,15 @@ def run_lemmas(table, specs, only=None, props=None, only_exact=None, both=False)
             ex = Executor(table, specs)
             st = State()
             st.pure = True
-            goal = specs.eval_bool(ex, text, st, None)
-            o = verify.execu.Oblig(name, st.pc, goal, [], 'lemma', {'clause': text})
+            if callable(text):
+                # library lemma given as z3 terms: (hypotheses, goal); discharged without the library axioms
+                hyps, goal = text()
+                r['clause'] = note or name
+                o = verify.execu.Oblig(name, list(hyps), goal, [], 'lemma', {'clause': r['clause']})
+                o.raw = True
+            else:
+                goal = specs.eval_bool(ex, text, st, None)
+                o = verify.execu.Oblig(name, st.pc, goal, [], 'lemma', {'clause': text})
             status, dt, backend, model, reason = verify.discharge(ex, o, both=both)
             r.update(status=status, backend=backend, reason=reason)
             if status == 'refuted':
